@@ -1,7 +1,7 @@
 #!/bin/sh
 # MANIFEST.setup_cmd: builds the framework from files on disk only (offline).
 set -e
-cd /verif
+cd "$(dirname "$0")/.."
 python3 tools/gen_consts.py
 [ -f tools/srcfacts.py ] && python3 tools/srcfacts.py || true
 [ -f tools/c2gallina.py ] && python3 tools/c2gallina.py || true
